@@ -340,3 +340,50 @@ Definition dom_quoRem (a b : Z) : Z * Z := divmod_I a b.
 (* isDivisor(a,b) { Element r; if (isZero(b)) return isZero(a); return isZero(mod(r,a,b)); } *)
 Definition dom_isDivisor (a b : Z) : bool :=
   if isZero b then isZero a else isZero (dom_mod a b).
+
+(* ================================================================== phase 3 *)
+(* ------------------------------------------------------------------ 8-bit types (template instantiations) *)
+Definition W8 : Z := 256.
+Definition H8 : Z := 128.
+Definition to_i8 (z : Z) : Z := (z + H8) mod W8 - H8.
+Definition to_u8 (z : Z) : Z := z mod W8.
+Definition in_i8 (z : Z) : Prop := - H8 <= z < H8.
+Definition in_u8 (z : Z) : Prop := 0 <= z < W8.
+
+(* gmp++_int.h: template<class XXX> XXX operator %(const XXX& n) const { return (XXX)this->operator % ( Integer(n) ); }
+   at XXX = signed char:   operator signed char() const { return (signed char) (int) *this; }  (int = mpz_get_si narrowed) *)
+Definition op_mod_Tc (this n : Z) : Z := to_i8 (to_i32 (op_mod_I this n)).
+(* at XXX = unsigned char: operator unsigned char() const { return (unsigned char) (uint32_t) *this; }
+   and operator uint32_t() = (uint32_t) mpz_get_ui: the ABSOLUTE value ("Cast towards unsigned consider only the absolute value") *)
+Definition op_mod_Tuc (this n : Z) : Z := to_u8 (to_u32 (Z.abs (op_mod_I this n))).
+
+(* unparametric-operations.h, UnparametricOperations<Integer> (the non-virtual base of ZRing<Integer>):
+     div(x,y,z) { return x = y / z; }   divin(x,y) { return x /= y; }
+     mod(x,y,z) { return x = Moder(y,z); } = y % z      modin(x,y) { return Moderin(x,y); } = x %= y *)
+Definition zbase_div (y z : Z) : Z := op_div_I y z.
+Definition zbase_divin (x y : Z) : Z := op_diveq_I x y.
+Definition zbase_mod (y z : Z) : Z := op_mod_I y z.
+Definition zbase_modin (x y : Z) : Z := op_modeq_I x y.
+
+(* ------------------------------------------------------------------ raw conversions of the CInt layer, as the code uses them
+   (each is run against the compiled C conversion on every check: forms "cast.*") *)
+Definition cast_i64_u64 (z : Z) : Z := to_u64 z.                  (* (uint64_t)(int64_t) *)
+Definition cast_u64_i64 (z : Z) : Z := to_i64 z.                  (* (int64_t)(uint64_t) *)
+Definition cast_i64_i32 (z : Z) : Z := to_i32 z.                  (* (int32_t)(int64_t) *)
+Definition cast_i64_i16 (z : Z) : Z := to_i16 z.                  (* (int16_t)(int64_t) *)
+Definition cast_abs64 (z : Z) : Z := to_u64 (c_abs64 z).          (* unsigned long a = std::abs(long) *)
+Definition cast_neg64 (z : Z) : Z := to_u64 (c_neg64 z).          (* unsigned long a = -long *)
+Definition cast_i64_dbl (z : Z) : Z := round53 z.                 (* static_cast<double>(int64_t) *)
+Definition cast_dbl_u64 (K : Z) : Z := to_u64 (K / 2 ^ 4).        (* static_cast<uint64_t>(K / 16.0), 0 <= K/16 < 2^64 *)
+
+(* configuration the model is written for (printed by the compiled harness on every check: forms "cfg.*") *)
+Definition cfg_sizeof_long : Z := 8.
+Definition cfg_limb_bits : Z := 64.
+Definition cfg_i64_min : Z := - H64.
+Definition cfg_i64_max : Z := H64 - 1.
+Definition cfg_u64_max : Z := W64 - 1.
+Definition cfg_i32_min : Z := - H32.
+Definition cfg_u32_max : Z := W32 - 1.
+Definition cfg_i16_min : Z := - H16.
+Definition cfg_u16_max : Z := W16 - 1.
+Definition cfg_dbl_mant_dig : Z := 53.
